@@ -15,7 +15,7 @@ func init() {
 	register(&propDef{
 		ID: "C10",
 		Meta: propMeta{
-			Explanation: "Decides that every acceptance conjunct and every consumer-side check of the timestamp protocol is on every path: (R10a) ParseResponse succeeds only after a clean ASN.1 parse with no trailing bytes, a granted status and SanityCheckToken==nil; SanityCheckToken succeeds only after the token's signature verified, the nonce compared equal and the imprint hmac.Equal to the request's; the client's RFC 3161 path returns only what ParseResponse of this request's message returned, after an HTTP 200; requests carry a fresh nonce and the caller's imprint; (R10b) at every consumer call of Timestamper.Timestamp (pass-through middlewares excepted) the function can succeed only after a verification primitive (pkcs9.Verify / VerifyTimestamp / the PKCS#7 self-check after attaching) was applied to that token and to the very signature value that was sent; (R10c) errors of Timestamp / TimestampAndMarshal are never dropped and their failure edges reach no success return, and what signinit.Init stores into cert.Timestamper is a boxed value or the result of a helper none of whose returns pairs a possibly-nil timestamper with a possibly-nil error; signinit.Init cannot succeed without installing a Timestamper when the key configuration asks for one; (R10d) the client tries the configured URLs in order inside a loop, a failure reaches the next attempt unless the caller's context ended, success returns the token of the successful attempt, and exhaustion returns a non-nil error; (R10e) CounterSignature values are built only by finishVerify / VerifyMicrosoftToken after the counter-signer's signature verified and the imprint / content was compared with the parent signature value passed in by the caller; (R10f) chains are judged at the attested time: TimestampedSignature.VerifyChain passes the counter-signature's SigningTime, only after the counter-signature's own chain verified; (R10g) functions of lib/pkcs7 and lib/pkcs9 that yield a time.Time never read SignerInfo.UnauthenticatedAttributes, and TimestampAndMarshal runs its self-check (Verify + VerifyOptionalTimestamp on that result) only after the token was attached; in R10d the context whose end may stop the failover must be the caller's own, not one this function wrapped with a deadline. (R10h) TimestampAndMarshal hands to AddStampToSignedData / AddStampToSignedAuthenticode an address reached from its SignedData parameter through fields and elements only, never a local copy, so the caller's structure carries the token; (R10i) the HTTP client of lib/pkcs9/tsclient sets Client.Timeout (or builds its requests with a deadline context): the whole exchange is bounded and a stalling authority leads to the next one; (R10j) no function reachable from a VerifyChain method touches a package-level sync.Map or a package-level map that is written anywhere: the verdict for one judging time is not reused for another.",
+			Explanation: "Decides that every acceptance conjunct and every consumer-side check of the timestamp protocol is on every path: (R10a) ParseResponse succeeds only after a clean ASN.1 parse with no trailing bytes, a granted status and SanityCheckToken==nil; SanityCheckToken succeeds only after the token's signature verified, the nonce compared equal and the imprint hmac.Equal to the request's; the client's RFC 3161 path returns only what ParseResponse of this request's message returned, after an HTTP 200; requests carry a fresh nonce and the caller's imprint; (R10b) at every consumer call of Timestamper.Timestamp (pass-through middlewares excepted) the function can succeed only after a verification primitive (pkcs9.Verify / VerifyTimestamp / the PKCS#7 self-check after attaching) was applied to that token and to the very signature value that was sent; (R10c) errors of Timestamp / TimestampAndMarshal are never dropped and their failure edges reach no success return, and what signinit.Init stores into cert.Timestamper is a boxed value or the result of a helper none of whose returns pairs a possibly-nil timestamper with a possibly-nil error; signinit.Init cannot succeed without installing a Timestamper when the key configuration asks for one; (R10d) the client tries the configured URLs in order inside a loop, a failure reaches the next attempt unless the caller's context ended, success returns the token of the successful attempt, and exhaustion returns a non-nil error; (R10e) CounterSignature values are built only by finishVerify / VerifyMicrosoftToken after the counter-signer's signature verified and the imprint / content was compared with the parent signature value passed in by the caller; (R10f) chains are judged at the attested time: TimestampedSignature.VerifyChain passes the counter-signature's SigningTime, only after the counter-signature's own chain verified; (R10g) functions of lib/pkcs7 and lib/pkcs9 that yield a time.Time never read SignerInfo.UnauthenticatedAttributes, and TimestampAndMarshal runs its self-check (Verify + VerifyOptionalTimestamp on that result) only after the token was attached; in R10d the context whose end may stop the failover must be the caller's own, not one this function wrapped with a deadline. (R10h) TimestampAndMarshal hands to AddStampToSignedData / AddStampToSignedAuthenticode an address reached from its SignedData parameter through fields and elements only, never a local copy, so the caller's structure carries the token; (R10i) the HTTP client of lib/pkcs9/tsclient sets Client.Timeout (or builds its requests with a deadline context): the whole exchange is bounded and a stalling authority leads to the next one; (R10k) every success return of Config.GetKey is a lookup in Config.Keys (the entry itself, for an alias the target's) and no function stores into KeyConfig.Timestamp / Timestamper: whether Init installs a timestamper is decided by the configured key; (R10j) no function reachable from a VerifyChain method touches a package-level sync.Map or a package-level map that is written anywhere: the verdict for one judging time is not reused for another.",
 			NotDecided:  "RFC 3161 semantics inside encoding/asn1, network hangs/timeouts, rate limiting, and whether the legacy Microsoft authority's reply is genuine before the consumer-side check.",
 			Assumptions: []string{"hmac.Equal/bytes.Equal/(*big.Int).Cmp compare what they are given"},
 		},
